@@ -1,0 +1,1379 @@
+//go:build verif
+// +build verif
+
+package raft
+
+// Verification hook API (build tag verif). It adds no behaviour: it constructs
+// follower/candidate/leader exactly as stateLoop does and calls the unexported
+// handlers synchronously, so that an external harness can play the role of
+// stateLoop's select and of the network, and can read the complete state.
+
+import (
+	"bufio"
+	"bytes"
+	"encoding/json"
+	"errors"
+	"fmt"
+	"io"
+	"io/ioutil"
+	"net"
+	"os"
+	"path/filepath"
+	"runtime"
+	"sort"
+	"sync"
+	"time"
+)
+
+// VerifSetPointFn installs the callback invoked at verifPoint call sites.
+func VerifSetPointFn(f func(name string, args ...interface{})) { verifPointFn = f }
+
+// ---------------------------------------------------------------------------
+// digest types (field names mirror the Lean model)
+
+type VCNode struct {
+	ID     uint64 `json:"id"`
+	Addr   string `json:"addr"`
+	Voter  bool   `json:"voter"`
+	Data   string `json:"data"`
+	Action uint64 `json:"action"`
+}
+
+type VConfig struct {
+	Nodes []VCNode `json:"nodes"`
+	Index uint64   `json:"index"`
+	Term  uint64   `json:"term"`
+}
+
+type VConfigs struct {
+	Committed VConfig `json:"committed"`
+	Latest    VConfig `json:"latest"`
+}
+
+type VEntry struct {
+	Index uint64   `json:"index"`
+	Term  uint64   `json:"term"`
+	Typ   uint64   `json:"typ"`
+	Data  string   `json:"data"`
+	Cfg   *VConfig `json:"cfg,omitempty"`
+}
+
+type VLog struct {
+	Prev    uint64   `json:"prev"`
+	Entries []VEntry `json:"entries"`
+	Flushed uint64   `json:"flushed"`
+	Segs    []uint64 `json:"segs"`
+}
+
+type VRound struct {
+	Ordinal   uint64 `json:"ordinal"`
+	LastIndex uint64 `json:"lastIndex"`
+	Finished  bool   `json:"finished"`
+	Aged      bool   `json:"aged"`
+}
+
+type VRepl struct {
+	ID         uint64  `json:"id"`
+	MatchIndex uint64  `json:"matchIndex"`
+	NoContact  bool    `json:"noContact"`
+	Node       VCNode  `json:"node"`
+	Round      *VRound `json:"round,omitempty"`
+	RemoveLTE  uint64  `json:"removeLTE"`
+}
+
+type VQItem struct {
+	Index uint64   `json:"index"`
+	Term  uint64   `json:"term"`
+	Typ   uint64   `json:"typ"`
+	Data  string   `json:"data"`
+	Cfg   *VConfig `json:"cfg,omitempty"`
+	Task  uint64   `json:"task"`
+}
+
+type VTransfer struct {
+	Active       bool   `json:"active"`
+	Target       uint64 `json:"target"`
+	Term         uint64 `json:"term"`
+	Task         uint64 `json:"task"`
+	RespPending  bool   `json:"respPending"`
+	NewTermTimer bool   `json:"newTermTimer"`
+}
+
+type VLeader struct {
+	Node       VCNode    `json:"node"`
+	NumVoters  uint64    `json:"numVoters"`
+	StartIndex uint64    `json:"startIndex"`
+	Queue      []VQItem  `json:"queue"`
+	Repls      []VRepl   `json:"repls"`
+	Transfer   VTransfer `json:"transfer"`
+	WaitStable []uint64  `json:"waitStable"`
+	RemoveLTE  uint64    `json:"removeLTE"`
+}
+
+type VFsm struct {
+	Index   uint64   `json:"index"`
+	Term    uint64   `json:"term"`
+	Applied []string `json:"applied"`
+	Config  VConfig  `json:"config"`
+}
+
+type VSnapFile struct {
+	Index  uint64   `json:"index"`
+	Term   uint64   `json:"term"`
+	Config VConfig  `json:"config"`
+	Data   []string `json:"data"`
+}
+
+type VSnapReq struct {
+	Task     uint64  `json:"task"`
+	MinIndex uint64  `json:"minIndex"`
+	Config   VConfig `json:"config"`
+}
+
+type VSnapRes struct {
+	Task  uint64 `json:"task"`
+	Err   string `json:"err"`
+	Index uint64 `json:"index"`
+}
+
+type VReply struct {
+	Task   uint64 `json:"task"`
+	Result string `json:"result"`
+}
+
+type VRpcReply struct {
+	Term         uint64 `json:"term"`
+	Result       uint64 `json:"result"`
+	LastLogIndex uint64 `json:"lastLogIndex"`
+	ResetTimer   bool   `json:"resetTimer"`
+}
+
+// VNode is the complete observable state of one node (Lean: Raft.Node).
+type VNode struct {
+	CID              uint64      `json:"cid"`
+	NID              uint64      `json:"nid"`
+	Retain           uint64      `json:"retain"`
+	ShutdownOnRemove bool        `json:"shutdownOnRemove"`
+	Term             uint64      `json:"term"`
+	VotedFor         uint64      `json:"votedFor"`
+	DurTerm          uint64      `json:"durTerm"`
+	DurVote          uint64      `json:"durVote"`
+	Log              VLog        `json:"log"`
+	LastLogIndex     uint64      `json:"lastLogIndex"`
+	LastLogTerm      uint64      `json:"lastLogTerm"`
+	SnapIndex        uint64      `json:"snapIndex"`
+	SnapTerm         uint64      `json:"snapTerm"`
+	SnapsDisk        []VSnapFile `json:"snapsDisk"`
+	Configs          VConfigs    `json:"configs"`
+	Role             string      `json:"role"`
+	Leader           uint64      `json:"leader"`
+	CommitIndex      uint64      `json:"commitIndex"`
+	Fsm              VFsm        `json:"fsm"`
+	VotesNeeded      int64       `json:"votesNeeded"`
+	CandTransfer     bool        `json:"candTransfer"`
+	Ldr              VLeader     `json:"ldr"`
+	SnapPending      *VSnapReq   `json:"snapPending,omitempty"`
+	SnapResult       *VSnapRes   `json:"snapResult,omitempty"`
+	Closed           string      `json:"closed"`
+	RollAt           []uint64    `json:"rollAt"`
+	Orders           [][]uint64  `json:"orders"`
+	Replies          []VReply    `json:"replies"`
+	RpcReply         *VRpcReply  `json:"rpcReply,omitempty"`
+	Result           uint64      `json:"result"`
+	Trace            []string    `json:"trace"`
+}
+
+func vcnode(n Node) VCNode {
+	return VCNode{n.ID, n.Addr, n.Voter, n.Data, uint64(n.Action)}
+}
+
+func VerifConfig(c Config) VConfig {
+	vc := VConfig{Nodes: []VCNode{}, Index: c.Index, Term: c.Term}
+	for _, n := range c.Nodes {
+		vc.Nodes = append(vc.Nodes, vcnode(n))
+	}
+	sort.Slice(vc.Nodes, func(i, j int) bool { return vc.Nodes[i].ID < vc.Nodes[j].ID })
+	return vc
+}
+
+// ToConfig converts back to a raft Config.
+func (vc VConfig) ToConfig() Config {
+	c := Config{Nodes: map[uint64]Node{}, Index: vc.Index, Term: vc.Term}
+	for _, n := range vc.Nodes {
+		c.Nodes[n.ID] = Node{ID: n.ID, Addr: n.Addr, Voter: n.Voter, Data: n.Data, Action: Action(n.Action)}
+	}
+	return c
+}
+
+func ventry(e *entry) VEntry {
+	ve := VEntry{Index: e.index, Term: e.term, Typ: uint64(e.typ)}
+	if e.typ == entryConfig {
+		var c Config
+		if err := c.decode(e); err == nil {
+			// payload of a config entry is the node set; index/term come from the entry
+			vc := VerifConfig(c)
+			vc.Index, vc.Term = 0, 0
+			ve.Cfg = &vc
+		}
+	} else {
+		ve.Data = string(e.data)
+	}
+	return ve
+}
+
+// ---------------------------------------------------------------------------
+// recording FSM
+
+// VerifFSM records the update payloads applied. Snapshot/Restore are the identity on the list.
+type VerifFSM struct {
+	mu      sync.Mutex
+	Applied []string
+}
+
+func (f *VerifFSM) Update(cmd []byte) interface{} {
+	f.mu.Lock()
+	defer f.mu.Unlock()
+	f.Applied = append(f.Applied, string(cmd))
+	return len(f.Applied)
+}
+
+func (f *VerifFSM) Read(cmd interface{}) interface{} {
+	f.mu.Lock()
+	defer f.mu.Unlock()
+	return len(f.Applied)
+}
+
+type verifFSMState struct{ applied []string }
+
+func (s verifFSMState) Persist(w io.Writer) error { return json.NewEncoder(w).Encode(s.applied) }
+func (s verifFSMState) Release()                  {}
+
+func (f *VerifFSM) Snapshot() (FSMState, error) {
+	f.mu.Lock()
+	defer f.mu.Unlock()
+	return verifFSMState{append([]string{}, f.Applied...)}, nil
+}
+
+func (f *VerifFSM) Restore(r io.Reader) error {
+	var applied []string
+	if err := json.NewDecoder(r).Decode(&applied); err != nil {
+		return err
+	}
+	f.mu.Lock()
+	defer f.mu.Unlock()
+	f.Applied = applied
+	return nil
+}
+
+func (f *VerifFSM) list() []string {
+	f.mu.Lock()
+	defer f.mu.Unlock()
+	return append([]string{}, f.Applied...)
+}
+
+// VerifSnapData encodes an applied-list the way VerifFSM persists it.
+func VerifSnapData(applied []string) []byte {
+	if applied == nil {
+		applied = []string{}
+	}
+	b := new(bytes.Buffer)
+	_ = json.NewEncoder(b).Encode(applied)
+	return b.Bytes()
+}
+
+// ---------------------------------------------------------------------------
+// node under harness control
+
+type verifTask struct {
+	id   uint64
+	task Task
+}
+
+// VerifNode wraps a Raft whose stateLoop is played by the harness.
+type VerifNode struct {
+	R   *Raft
+	Dir string
+	FSM *VerifFSM
+	opt Options
+
+	f   *follower
+	c   *candidate
+	l   *leader
+	cur State
+
+	fsmDead  chan struct{}
+	fsmPanic interface{}
+	fsmDone  chan struct{}
+
+	gateMu sync.Mutex
+	gate   chan struct{}
+
+	tasks    []verifTask
+	done     []verifTask // completed tasks, still needed to name queue items that carry them
+	replies  []VReply
+	rpcReply *VRpcReply
+
+	snapReq  *VSnapReq
+	snapGate chan struct{}
+	heldSnap *snapTaken
+
+	// replication statuses ever created, to address updates from removed replications
+	statuses map[uint64][]*replicationStatus
+
+	Panic string // class of the first panic, "" if none
+	Dead  bool
+}
+
+type verifConn struct{}
+
+func (verifConn) Read(b []byte) (int, error)         { return 0, io.EOF }
+func (verifConn) Write(b []byte) (int, error)        { return len(b), nil }
+func (verifConn) Close() error                       { return nil }
+func (verifConn) LocalAddr() net.Addr                { return nil }
+func (verifConn) RemoteAddr() net.Addr               { return nil }
+func (verifConn) SetDeadline(t time.Time) error      { return nil }
+func (verifConn) SetReadDeadline(t time.Time) error  { return nil }
+func (verifConn) SetWriteDeadline(t time.Time) error { return nil }
+
+var errVerifDial = errors.New("verif: dial blocked")
+
+var verifNodes sync.Map // storage dir -> *VerifNode
+
+// VerifLookup returns the live node serving dir, if any.
+func VerifLookup(dir string) *VerifNode {
+	if v, ok := verifNodes.Load(dir); ok {
+		return v.(*VerifNode)
+	}
+	return nil
+}
+
+// VerifOpen opens the node on dir as New does, and performs the restore step of Serve.
+func VerifOpen(dir string, opt Options) (*VerifNode, error) {
+	fsm := &VerifFSM{}
+	r, err := New(opt, fsm, dir)
+	if err != nil {
+		return nil, err
+	}
+	n := &VerifNode{
+		R: r, Dir: dir, FSM: fsm, opt: opt,
+		fsmDead:  make(chan struct{}),
+		fsmDone:  make(chan struct{}),
+		gate:     make(chan struct{}),
+		statuses: map[uint64][]*replicationStatus{},
+	}
+	r.dialFn = func(network, address string, timeout time.Duration) (net.Conn, error) {
+		n.gateMu.Lock()
+		g := n.gate
+		n.gateMu.Unlock()
+		<-g
+		return nil, errVerifDial
+	}
+	go func() {
+		defer close(n.fsmDone)
+		defer func() {
+			if v := recover(); v != nil {
+				n.fsmPanic = v
+				close(n.fsmDead)
+			}
+		}()
+		r.fsm.runLoop()
+	}()
+	verifNodes.Store(dir, n)
+
+	// Serve: restore fsm from last snapshot, if present
+	if r.snaps.index > 0 {
+		r.fsm.ch <- fsmRestoreReq{r.fsmRestoredCh}
+		select {
+		case err := <-r.fsmRestoredCh:
+			if err != nil {
+				n.Close()
+				return nil, err
+			}
+		case <-n.fsmDead:
+			n.Close()
+			return nil, fmt.Errorf("verif: fsm died during restore: %v", n.fsmPanic)
+		}
+		r.commitIndex = r.snaps.index
+	}
+
+	// stateLoop prologue
+	n.f = &follower{Raft: r}
+	n.c = &candidate{Raft: r}
+	n.l = &leader{
+		Raft:  r,
+		repls: make(map[uint64]*replication),
+		transfer: transfer{
+			timer:        newSafeTimer(),
+			newTermTimer: newSafeTimer(),
+		},
+	}
+	r.ldr, r.cnd = n.l, n.c
+	n.cur = r.state
+	n.role(n.cur).init()
+	return n, nil
+}
+
+func (n *VerifNode) role(s State) interface {
+	init()
+	release()
+	onTimeout()
+} {
+	switch s {
+	case Follower:
+		return n.f
+	case Candidate:
+		return n.c
+	default:
+		return n.l
+	}
+}
+
+func (n *VerifNode) openGate() {
+	n.gateMu.Lock()
+	select {
+	case <-n.gate:
+	default:
+		close(n.gate)
+	}
+	n.gateMu.Unlock()
+}
+
+func (n *VerifNode) newGate() {
+	n.gateMu.Lock()
+	n.gate = make(chan struct{})
+	n.gateMu.Unlock()
+}
+
+func verifPanicClass(v interface{}) string {
+	switch e := v.(type) {
+	case bug:
+		return "bug"
+	case runtime.Error:
+		s := e.Error()
+		if bytes.Contains([]byte(s), []byte("nil pointer")) {
+			return "nil"
+		}
+		if bytes.Contains([]byte(s), []byte("out of range")) {
+			return "index"
+		}
+		return "runtime"
+	case error:
+		if e == errAssertion {
+			return "assert"
+		}
+		if e == errUnreachable {
+			return "unreachable"
+		}
+		return "error"
+	case string:
+		return "logpanic"
+	}
+	return "panic"
+}
+
+func (n *VerifNode) setPanic(class string) {
+	if n.Panic == "" {
+		n.Panic = class
+	}
+	n.Dead = true
+}
+
+// run executes fn as one iteration of stateLoop: the handler, then role transitions.
+func (n *VerifNode) run(fn func()) {
+	n.replies, n.rpcReply = nil, nil
+	if n.Dead {
+		return
+	}
+	func() {
+		defer func() {
+			if v := recover(); v != nil {
+				n.setPanic(verifPanicClass(v))
+			}
+		}()
+		fn()
+		n.settle()
+	}()
+	n.syncFSM()
+	n.checkViews()
+	n.collectReplies()
+}
+
+func (n *VerifNode) settle() {
+	r := n.R
+	for i := 0; i < 8; i++ {
+		if r.state == n.cur {
+			// candidate: the self vote queued by startElection
+			select {
+			case v := <-n.c.respCh:
+				n.c.onVoteResult(v)
+				continue
+			default:
+			}
+			return
+		}
+		r.timer.stop()
+		n.releaseRole(n.cur)
+		n.cur = r.state
+		n.role(n.cur).init()
+	}
+}
+
+func (n *VerifNode) releaseRole(s State) {
+	if s == Leader {
+		// replication goroutines are parked in dial; let them fail so that release's wg.Wait returns
+		n.openGate()
+		n.l.release()
+		n.newGate()
+		return
+	}
+	n.role(s).release()
+}
+
+func (n *VerifNode) syncFSM() {
+	r := n.R
+	t := lastApplied{newTask()}
+	select {
+	case r.fsm.ch <- t:
+		select {
+		case <-t.done:
+		case <-n.fsmDead:
+		}
+	case <-n.fsmDead:
+	}
+	select {
+	case <-n.fsmDead:
+		n.setPanic("fsm")
+	default:
+	}
+	// stateLoop: case err := <-r.fsmRestoredCh: if err != nil { panic(err) }
+	for {
+		select {
+		case err := <-r.fsmRestoredCh:
+			if err != nil {
+				n.setPanic("fsm")
+			}
+			continue
+		default:
+		}
+		break
+	}
+}
+
+// checkViews reports the nil log views that replication goroutines would dereference.
+func (n *VerifNode) checkViews() {
+	if n.R.state != Leader {
+		return
+	}
+	for _, repl := range n.l.repls {
+		if repl.log == nil {
+			n.setPanic("nilView")
+		}
+		select {
+		case u := <-repl.leaderUpdateCh:
+			if u.log == nil {
+				n.setPanic("nilView")
+			}
+		default:
+		}
+		n.noteStatus(&repl.status)
+	}
+}
+
+func (n *VerifNode) noteStatus(st *replicationStatus) {
+	for _, s := range n.statuses[st.id] {
+		if s == st {
+			return
+		}
+	}
+	n.statuses[st.id] = append(n.statuses[st.id], st)
+}
+
+func verifResult(v interface{}) string {
+	switch e := v.(type) {
+	case nil:
+		return "ok"
+	case uint64:
+		return fmt.Sprintf("u64:%d", e)
+	case int:
+		return fmt.Sprintf("val:%d", e)
+	case Config:
+		return fmt.Sprintf("config:%d", e.Index)
+	case Info:
+		return "info"
+	case NotLeaderError:
+		return fmt.Sprintf("notLeader:%d:%v", e.Leader.ID, e.Lost)
+	case InProgressError:
+		return "inProgress:" + string(e)
+	case TimeoutError:
+		return "timeout:" + string(e)
+	case plainError:
+		switch e {
+		case ErrServerClosed:
+			return "plain:serverClosed"
+		case ErrQuorumUnreachable:
+			return "plain:quorumUnreachable"
+		case ErrNoUpdates:
+			return "plain:noUpdates"
+		case ErrSnapshotThreshold:
+			return "plain:snapshotThreshold"
+		case ErrStaleConfig:
+			return "plain:staleConfig"
+		case ErrTransferNoVoter:
+			return "plain:transferNoVoter"
+		case ErrTransferSelf:
+			return "plain:transferSelf"
+		case ErrTransferTargetNonvoter:
+			return "plain:transferTargetNonvoter"
+		case ErrTransferInvalidTarget:
+			return "plain:transferInvalidTarget"
+		case ErrNodeRemoved:
+			return "plain:nodeRemoved"
+		}
+		return "plain:" + string(e)
+	case temporaryError:
+		if e == ErrNotCommitReady {
+			return "temp:notCommitReady"
+		}
+		return "temp:" + string(e)
+	case error:
+		return "error"
+	}
+	return fmt.Sprintf("other:%T", v)
+}
+
+func (n *VerifNode) collectReplies() {
+	var rest []verifTask
+	for _, t := range n.tasks {
+		if isClosed(t.task.Done()) {
+			var res interface{}
+			if err := t.task.Err(); err != nil {
+				res = err
+			} else {
+				res = t.task.Result()
+			}
+			n.replies = append(n.replies, VReply{t.id, verifResult(res)})
+			n.done = append(n.done, t)
+		} else {
+			rest = append(rest, t)
+		}
+	}
+	n.tasks = rest
+}
+
+func (n *VerifNode) track(id uint64, t Task) {
+	if id != 0 {
+		n.tasks = append(n.tasks, verifTask{id, t})
+	}
+}
+
+func (n *VerifNode) taskID(t *task) uint64 {
+	if t == nil {
+		return 0
+	}
+	for _, vt := range append(append([]verifTask{}, n.tasks...), n.done...) {
+		switch tt := vt.task.(type) {
+		case *newEntry:
+			if tt.task == t {
+				return vt.id
+			}
+		case changeConfig:
+			if tt.task == t {
+				return vt.id
+			}
+		case transferLdr:
+			if tt.task == t {
+				return vt.id
+			}
+		case waitForStableConfig:
+			if tt.task == t {
+				return vt.id
+			}
+		case takeSnapshot:
+			if tt.task == t {
+				return vt.id
+			}
+		}
+	}
+	return 0
+}
+
+// ---------------------------------------------------------------------------
+// operations (one per case of stateLoop's select)
+
+type VVoteReq struct {
+	Term         uint64 `json:"term"`
+	Src          uint64 `json:"src"`
+	LastLogIndex uint64 `json:"lastLogIndex"`
+	LastLogTerm  uint64 `json:"lastLogTerm"`
+	Transfer     bool   `json:"transfer"`
+}
+
+type VAppendReq struct {
+	Term           uint64   `json:"term"`
+	Src            uint64   `json:"src"`
+	PrevLogIndex   uint64   `json:"prevLogIndex"`
+	PrevLogTerm    uint64   `json:"prevLogTerm"`
+	LdrCommitIndex uint64   `json:"ldrCommitIndex"`
+	Entries        []VEntry `json:"entries"`
+}
+
+type VInstallReq struct {
+	Term       uint64   `json:"term"`
+	Src        uint64   `json:"src"`
+	LastIndex  uint64   `json:"lastIndex"`
+	LastTerm   uint64   `json:"lastTerm"`
+	LastConfig VConfig  `json:"lastConfig"`
+	Data       []string `json:"data"`
+}
+
+func (ve VEntry) toEntry() *entry {
+	if ve.Typ == uint64(entryConfig) && ve.Cfg != nil {
+		c := ve.Cfg.ToConfig()
+		e := c.encode()
+		e.index, e.term = ve.Index, ve.Term
+		return e
+	}
+	return &entry{index: ve.Index, term: ve.Term, typ: entryType(ve.Typ), data: []byte(ve.Data)}
+}
+
+func (n *VerifNode) rpc(typ rpcType, payload []byte) {
+	r := n.R
+	out := new(bytes.Buffer)
+	c := &conn{rwc: verifConn{}, bufr: bufio.NewReader(bytes.NewReader(payload)), bufw: bufio.NewWriter(out)}
+	rpc := &rpc{req: typ.createReq(), conn: c, done: make(chan struct{})}
+	if !typ.fromLeader() {
+		if err := rpc.req.decode(c.bufr); err != nil {
+			panic(err)
+		}
+	}
+	reply := &VRpcReply{}
+	n.rpcReply = reply
+	resetTimer := r.replyRPC(rpc)
+	if r.state == Follower && resetTimer {
+		n.f.resetTimer()
+	}
+	reply.ResetTimer = resetTimer
+	if rpc.resp != nil {
+		reply.Term, reply.Result = rpc.resp.getTerm(), uint64(rpc.resp.getResult())
+		if ar, ok := rpc.resp.(*appendResp); ok {
+			reply.LastLogIndex = ar.lastLogIndex
+		}
+	}
+}
+
+func mustEncode(buf *bytes.Buffer, m interface{ encode(io.Writer) error }) {
+	if err := m.encode(buf); err != nil {
+		panic(err)
+	}
+}
+
+// Vote delivers a vote request.
+func (n *VerifNode) Vote(q VVoteReq) {
+	n.run(func() {
+		buf := new(bytes.Buffer)
+		mustEncode(buf, &voteReq{req{q.Term, q.Src}, q.LastLogIndex, q.LastLogTerm, q.Transfer})
+		n.rpc(rpcVote, buf.Bytes())
+	})
+}
+
+// Append delivers an append-entries request followed by its entries.
+func (n *VerifNode) Append(q VAppendReq) {
+	n.run(func() {
+		buf := new(bytes.Buffer)
+		mustEncode(buf, &appendReq{req{q.Term, q.Src}, q.PrevLogIndex, q.PrevLogTerm, q.LdrCommitIndex, uint64(len(q.Entries))})
+		for _, e := range q.Entries {
+			mustEncode(buf, e.toEntry())
+		}
+		n.rpc(rpcAppendEntries, buf.Bytes())
+	})
+}
+
+// Install delivers an install-snapshot request followed by the snapshot bytes.
+func (n *VerifNode) Install(q VInstallReq) {
+	n.run(func() {
+		data := VerifSnapData(q.Data)
+		buf := new(bytes.Buffer)
+		mustEncode(buf, &installSnapReq{req{q.Term, q.Src}, q.LastIndex, q.LastTerm, q.LastConfig.ToConfig(), int64(len(data))})
+		buf.Write(data)
+		n.rpc(rpcInstallSnap, buf.Bytes())
+	})
+}
+
+// TimeoutNow delivers a timeout-now request.
+func (n *VerifNode) TimeoutNow(term, src uint64) {
+	n.run(func() {
+		buf := new(bytes.Buffer)
+		mustEncode(buf, &timeoutNowReq{req{term, src}})
+		n.rpc(rpcTimeoutNow, buf.Bytes())
+	})
+}
+
+// Identity delivers an identity request.
+func (n *VerifNode) Identity(src, cid, nid uint64) {
+	n.run(func() {
+		buf := new(bytes.Buffer)
+		mustEncode(buf, &identityReq{req{0, src}, cid, nid})
+		n.rpc(rpcIdentity, buf.Bytes())
+	})
+}
+
+// Disconnected plays `case nid := <-r.disconnected`.
+func (n *VerifNode) Disconnected(nid uint64) {
+	n.run(func() {
+		r := n.R
+		if r.leader != 0 && nid != 0 && r.leader == nid {
+			r.setLeader(0)
+		}
+	})
+}
+
+// Timeout plays `case <-r.timer.C`.
+func (n *VerifNode) Timeout() {
+	n.run(func() {
+		n.R.timer.active = false
+		n.role(n.R.state).onTimeout()
+	})
+}
+
+// VNewEntry is one FSM task of a batch.
+type VNewEntry struct {
+	Typ  uint64 `json:"typ"`
+	Data string `json:"data"`
+	Task uint64 `json:"task"`
+}
+
+// NewEntries plays `case ne := <-r.newEntryCh` with a batch built as runBatch does.
+func (n *VerifNode) NewEntries(batch []VNewEntry) {
+	n.run(func() {
+		r := n.R
+		var head, tail *newEntry
+		for _, b := range batch {
+			var t FSMTask
+			switch entryType(b.Typ) {
+			case entryUpdate:
+				t = UpdateFSM([]byte(b.Data))
+			case entryRead:
+				t = ReadFSM(b.Data)
+			case entryDirtyRead:
+				t = DirtyReadFSM(b.Data)
+			case entryBarrier:
+				t = BarrierFSM()
+			default:
+				t = fsmTask(entryType(b.Typ), nil, []byte(b.Data))
+			}
+			ne := t.newEntry()
+			n.track(b.Task, ne)
+			if tail != nil {
+				tail.next, tail = ne, ne
+			} else {
+				head, tail = ne, ne
+			}
+		}
+		if head == nil {
+			return
+		}
+		ne := head
+		if r.state == Leader {
+			n.l.storeEntry(ne)
+		} else {
+			for ne != nil {
+				if ne.typ == entryDirtyRead {
+					r.fsm.ch <- fsmDirtyRead{ne}
+				} else {
+					ne.reply(notLeaderError(r, false))
+				}
+				ne = ne.next
+			}
+		}
+	})
+}
+
+func (n *VerifNode) execute(id uint64, t Task) {
+	n.run(func() {
+		n.track(id, t)
+		n.R.executeTask(t)
+		if n.R.state == Follower && n.f.electionAborted {
+			n.f.resetTimer()
+		}
+	})
+}
+
+// ChangeConfig plays `case t := <-r.taskCh` with a ChangeConfig task.
+func (n *VerifNode) ChangeConfig(id uint64, c VConfig) { n.execute(id, ChangeConfig(c.ToConfig())) }
+
+// WaitStable submits WaitForStableConfig.
+func (n *VerifNode) WaitStable(id uint64) { n.execute(id, WaitForStableConfig()) }
+
+// Transfer submits TransferLeadership with a timeout that never fires on its own.
+func (n *VerifNode) Transfer(id, target uint64) {
+	n.execute(id, TransferLeadership(target, 24*time.Hour))
+}
+
+// TakeSnapshot submits TakeSnapshot; the snapshot goroutine is held at its first statement until SnapRun.
+func (n *VerifNode) TakeSnapshot(id, threshold uint64) {
+	r := n.R
+	wasPending := r.snapTakenCh != nil
+	if !wasPending {
+		n.snapGate = make(chan struct{})
+		n.snapReq = &VSnapReq{Task: id, MinIndex: r.snaps.index + threshold, Config: VerifConfig(r.configs.Committed)}
+	}
+	n.execute(id, TakeSnapshot(threshold))
+}
+
+// VerifSnapGate is called by the harness' point callback for "takeSnapshot.start".
+func (n *VerifNode) VerifSnapGate() {
+	if g := n.snapGate; g != nil {
+		<-g
+	}
+}
+
+// SnapRun lets the snapshot goroutine run to completion and holds its result.
+func (n *VerifNode) SnapRun() {
+	n.run(func() {
+		r := n.R
+		if r.snapTakenCh == nil || n.heldSnap != nil || n.snapReq == nil {
+			return
+		}
+		close(n.snapGate)
+		select {
+		case t := <-r.snapTakenCh:
+			n.heldSnap = &t
+		case <-n.fsmDead:
+			n.setPanic("fsm")
+		}
+		n.snapReq = nil
+	})
+}
+
+// SnapTaken plays `case t := <-r.snapTakenCh`.
+func (n *VerifNode) SnapTaken() {
+	n.run(func() {
+		if n.heldSnap == nil {
+			return
+		}
+		t := *n.heldSnap
+		n.heldSnap = nil
+		n.R.onSnapshotTaken(t)
+	})
+}
+
+// VoteResult plays `case v := <-c.respCh`.
+func (n *VerifNode) VoteResult(from uint64, isErr bool, term, result uint64) {
+	n.run(func() {
+		if n.R.state != Candidate {
+			return
+		}
+		var err error
+		if isErr {
+			err = errVerifDial
+		}
+		n.c.onVoteResult(rpcResponse{&voteResp{resp{term, rpcResult(result), nil}}, from, err})
+	})
+}
+
+// VReplUpdate is one replUpdate.
+type VReplUpdate struct {
+	ID      uint64 `json:"id"`
+	Removed bool   `json:"removed"`
+	Kind    string `json:"kind"`
+	Val     uint64 `json:"val"`
+	Flag    bool   `json:"flag"`
+}
+
+func (n *VerifNode) status(u VReplUpdate) *replicationStatus {
+	if !u.Removed {
+		if repl, ok := n.l.repls[u.ID]; ok {
+			return &repl.status
+		}
+		return nil
+	}
+	for _, st := range n.statuses[u.ID] {
+		if st.removed {
+			return st
+		}
+	}
+	return nil
+}
+
+// CanReplUpdate tells whether the status object addressed by u exists.
+func (n *VerifNode) CanReplUpdate(u VReplUpdate) bool {
+	return n.R.state == Leader && n.status(u) != nil
+}
+
+// ReplUpdates plays `case u := <-l.replUpdateCh` with the remaining updates already queued.
+func (n *VerifNode) ReplUpdates(us []VReplUpdate) {
+	n.run(func() {
+		if n.R.state != Leader || len(us) == 0 {
+			return
+		}
+		var list []replUpdate
+		for _, u := range us {
+			st := n.status(u)
+			if st == nil {
+				panic(fmt.Errorf("verif: no status for %d", u.ID))
+			}
+			var upd interface{}
+			switch u.Kind {
+			case "matchIndex":
+				upd = matchIndex{u.Val}
+			case "removeLTE":
+				upd = removeLTE{u.Val}
+			case "noContact":
+				if u.Flag {
+					upd = noContact{time.Now(), errVerifDial}
+				} else {
+					upd = noContact{time.Time{}, nil}
+				}
+			case "newTerm":
+				upd = newTerm{u.Val}
+			}
+			list = append(list, replUpdate{st, upd})
+		}
+		// anything the parked replication goroutines queued is not part of this step
+		for {
+			select {
+			case <-n.l.replUpdateCh:
+				continue
+			default:
+			}
+			break
+		}
+		for _, u := range list[1:] {
+			n.l.replUpdateCh <- u
+		}
+		n.l.checkReplUpdates(list[0])
+	})
+}
+
+// TransferTimeout plays `case <-l.transfer.timer.C`.
+func (n *VerifNode) TransferTimeout() {
+	n.run(func() {
+		if n.R.state != Leader || !n.l.transfer.inProgress() {
+			return
+		}
+		n.l.transfer.timer.active = false
+		n.l.onTransferTimeout()
+	})
+}
+
+// TimeoutNowResult plays `case result := <-l.transfer.respCh`.
+func (n *VerifNode) TimeoutNowResult(from uint64, isErr bool, result uint64) {
+	n.run(func() {
+		if n.R.state != Leader || n.l.transfer.respCh == nil {
+			return
+		}
+		var err error
+		if isErr {
+			err = errVerifDial
+		}
+		n.l.onTimeoutNowResult(rpcResponse{&timeoutNowResp{resp{n.R.term, rpcResult(result), nil}}, from, err})
+	})
+}
+
+// NewTermTimeout plays `case <-l.transfer.newTermTimer.C`.
+func (n *VerifNode) NewTermTimeout() {
+	n.run(func() {
+		if n.R.state != Leader || !n.l.transfer.newTermTimer.active {
+			return
+		}
+		n.l.transfer.newTermTimer.active = false
+		n.l.onNewTermTimeout()
+	})
+}
+
+// AgeRound makes the current promotion round of follower id older than PromoteThreshold.
+func (n *VerifNode) AgeRound(id uint64) bool {
+	if n.R.state != Leader {
+		return false
+	}
+	repl, ok := n.l.repls[id]
+	if !ok || repl.status.round == nil {
+		return false
+	}
+	repl.status.round.Start = repl.status.round.Start.Add(-2*n.R.promoteThreshold - time.Hour)
+	return true
+}
+
+// Shutdown plays Shutdown(): doClose, the deferred release of stateLoop, and Serve's drain.
+func (n *VerifNode) Shutdown() {
+	n.run(func() {
+		r := n.R
+		r.doClose(ErrServerClosed)
+		if n.heldSnap != nil {
+			r.snapTakenCh <- *n.heldSnap
+			n.heldSnap = nil
+		} else if r.snapTakenCh != nil && n.snapGate != nil {
+			select {
+			case <-n.snapGate:
+			default:
+				close(n.snapGate)
+			}
+		}
+		n.snapReq = nil
+		n.releaseRole(n.cur)
+		r.release()
+	})
+	n.Dead = true
+}
+
+// Close releases every resource of the node (not an operation of the model).
+func (n *VerifNode) Close() {
+	r := n.R
+	r.closeOnce.Do(func() { close(r.close) })
+	n.openGate()
+	fsmAlive := true
+	select {
+	case <-n.fsmDead:
+		fsmAlive = false
+	default:
+	}
+	// let a parked snapshot goroutine finish before the fsm channel is closed
+	// (with a dead fsm goroutine it stays parked for good and the channel stays open)
+	if fsmAlive && r.snapTakenCh != nil && n.heldSnap == nil && n.snapGate != nil {
+		select {
+		case <-n.snapGate:
+		default:
+			close(n.snapGate)
+		}
+		select {
+		case <-r.snapTakenCh:
+		case <-n.fsmDead:
+		case <-time.After(2 * time.Second):
+		}
+	}
+	verifNodes.Delete(n.Dir)
+	func() {
+		defer func() { _ = recover() }()
+		if n.l != nil {
+			for id, repl := range n.l.repls {
+				close(repl.stopCh)
+				delete(n.l.repls, id)
+			}
+		}
+	}()
+	if fsmAlive {
+		func() {
+			defer func() { _ = recover() }()
+			close(r.fsm.ch)
+		}()
+		select {
+		case <-n.fsmDone:
+		case <-time.After(2 * time.Second):
+		}
+	}
+	if r.storage != nil && r.storage.log != nil {
+		func() {
+			defer func() { _ = recover() }()
+			_ = r.storage.log.Close()
+		}()
+	}
+}
+
+// ---------------------------------------------------------------------------
+// observations for the harness' property monitors (read-only)
+
+// VObs is what the harness can read at a verifPoint while a handler is running.
+type VObs struct {
+	Role          string            `json:"role"`
+	Term          uint64            `json:"term"`
+	CommitIndex   uint64            `json:"commitIndex"`
+	LastLogIndex  uint64            `json:"lastLogIndex"`
+	Flushed       uint64            `json:"flushed"`
+	Latest        VConfig           `json:"latest"`
+	Committed     VConfig           `json:"committed"`
+	StartIndex    uint64            `json:"startIndex"`
+	Transfer      bool              `json:"transfer"`
+	Match         map[uint64]uint64 `json:"match"`
+	RoundLast     map[uint64]uint64 `json:"roundLast"`     // followers with a promotion round: round.LastIndex
+	RoundFinished map[uint64]bool   `json:"roundFinished"` // …and whether the round counts as finished
+	Entry         *VEntry           `json:"entry,omitempty"`
+	Arg           uint64            `json:"arg"`
+}
+
+// Observe reads the node state from inside a verifPoint callback.
+func (n *VerifNode) Observe() VObs {
+	r := n.R
+	o := VObs{Term: r.term, CommitIndex: r.commitIndex, LastLogIndex: r.lastLogIndex, Flushed: r.log.VerifFlushed(),
+		Latest: VerifConfig(r.configs.Latest), Committed: VerifConfig(r.configs.Committed),
+		Match: map[uint64]uint64{}, RoundLast: map[uint64]uint64{}, RoundFinished: map[uint64]bool{}}
+	switch r.state {
+	case Follower:
+		o.Role = "follower"
+	case Candidate:
+		o.Role = "candidate"
+	case Leader:
+		o.Role = "leader"
+		if n.l != nil {
+			o.StartIndex = n.l.startIndex
+			o.Transfer = n.l.transfer.inProgress()
+			for id, repl := range n.l.repls {
+				o.Match[id] = repl.status.matchIndex
+				if rd := repl.status.round; rd != nil {
+					o.RoundLast[id] = rd.LastIndex
+					o.RoundFinished[id] = rd.finished()
+				}
+			}
+		}
+	}
+	return o
+}
+
+// VerifEntry converts the entry passed to the "appendEntry" point.
+func VerifEntry(v interface{}) *VEntry {
+	if e, ok := v.(*entry); ok {
+		ve := ventry(e)
+		return &ve
+	}
+	return nil
+}
+
+// ---------------------------------------------------------------------------
+// digest
+
+func (n *VerifNode) vqitem(ne *newEntry) VQItem {
+	q := VQItem{Index: ne.index, Term: ne.term, Typ: uint64(ne.typ), Task: n.taskID(ne.task)}
+	ve := ventry(ne.entry)
+	q.Data, q.Cfg = ve.Data, ve.Cfg
+	return q
+}
+
+// Replies returns the task completions of the last operation (sorted by task id).
+func (n *VerifNode) Replies() []VReply {
+	out := append([]VReply{}, n.replies...)
+	sort.Slice(out, func(i, j int) bool { return out[i].Task < out[j].Task })
+	return out
+}
+
+// VerifDiskSnaps lists the snapshots stored under dir/snapshots, newest first.
+func VerifDiskSnaps(dir string) []VSnapFile {
+	out := []VSnapFile{}
+	sdir := filepath.Join(dir, "snapshots")
+	idx, err := findSnapshots(sdir)
+	if err != nil {
+		return out
+	}
+	for _, i := range idx {
+		sf := VSnapFile{Index: i, Data: []string{}}
+		if f, err := os.Open(metaFile(sdir, i)); err == nil {
+			meta := snapshotMeta{}
+			if err := meta.decode(f); err == nil {
+				sf.Term = meta.term
+				sf.Config = VerifConfig(meta.config)
+			}
+			_ = f.Close()
+		}
+		if b, err := ioutil.ReadFile(snapFile(sdir, i)); err == nil {
+			var applied []string
+			if err := json.Unmarshal(b, &applied); err == nil && applied != nil {
+				sf.Data = applied
+			} else if err != nil {
+				sf.Data = []string{"<unreadable>"}
+			}
+		} else {
+			sf.Data = []string{"<missing>"}
+		}
+		out = append(out, sf)
+	}
+	return out
+}
+
+// Digest returns the complete state.
+func (n *VerifNode) Digest() VNode {
+	r := n.R
+	d := VNode{
+		CID: r.cid, NID: r.nid,
+		Retain:           uint64(n.opt.SnapshotsRetain),
+		ShutdownOnRemove: r.shutdownOnRemove,
+		Term:             r.term, VotedFor: r.votedFor,
+		LastLogIndex: r.lastLogIndex, LastLogTerm: r.lastLogTerm,
+		Leader: r.leader, CommitIndex: r.commitIndex,
+		RollAt: []uint64{}, Orders: [][]uint64{}, Trace: []string{},
+	}
+	d.DurTerm, d.DurVote = r.termVal.get()
+	// log
+	d.Log = VLog{Prev: r.log.PrevIndex(), Entries: []VEntry{}, Flushed: r.log.VerifFlushed(), Segs: r.log.VerifSegPrevs()}
+	for i := r.log.PrevIndex() + 1; i <= r.log.LastIndex(); i++ {
+		e := &entry{}
+		if err := r.storage.getEntry(i, e); err != nil {
+			break
+		}
+		d.Log.Entries = append(d.Log.Entries, ventry(e))
+	}
+	d.SnapIndex, d.SnapTerm = r.snaps.latest()
+	d.SnapsDisk = VerifDiskSnaps(n.Dir)
+	d.Configs = VConfigs{VerifConfig(r.configs.Committed), VerifConfig(r.configs.Latest)}
+	switch r.state {
+	case Follower:
+		d.Role = "follower"
+	case Candidate:
+		d.Role = "candidate"
+		d.VotesNeeded = int64(n.c.votesNeeded)
+	case Leader:
+		d.Role = "leader"
+	}
+	d.CandTransfer = n.c.transfer
+	d.Fsm = VFsm{Index: r.fsm.index, Term: r.fsm.term, Applied: n.FSM.list(), Config: VerifConfig(r.fsm.config)}
+	// leader
+	d.Ldr = VLeader{Queue: []VQItem{}, Repls: []VRepl{}, WaitStable: []uint64{}}
+	if r.state == Leader {
+		l := n.l
+		d.Ldr.Node, d.Ldr.NumVoters = vcnode(l.node), uint64(l.numVoters)
+		d.Ldr.StartIndex, d.Ldr.RemoveLTE = l.startIndex, l.removeLTE
+		for ne := l.neHead; ne != nil; ne = ne.next {
+			d.Ldr.Queue = append(d.Ldr.Queue, n.vqitem(ne))
+		}
+		for id, repl := range l.repls {
+			st := &repl.status
+			vr := VRepl{ID: id, MatchIndex: st.matchIndex, NoContact: !st.noContact.IsZero(), Node: vcnode(st.node), RemoveLTE: st.removeLTE}
+			if st.round != nil {
+				rd := st.round
+				vrd := &VRound{Ordinal: rd.Ordinal, LastIndex: rd.LastIndex, Finished: rd.finished()}
+				if rd.finished() {
+					vrd.Aged = rd.Duration() > r.promoteThreshold
+				} else {
+					vrd.Aged = time.Since(rd.Start) > r.promoteThreshold
+				}
+				vr.Round = vrd
+			}
+			d.Ldr.Repls = append(d.Ldr.Repls, vr)
+		}
+		sort.Slice(d.Ldr.Repls, func(i, j int) bool { return d.Ldr.Repls[i].ID < d.Ldr.Repls[j].ID })
+		if l.transfer.inProgress() {
+			d.Ldr.Transfer = VTransfer{
+				Active: true, Target: l.transfer.target, Term: l.transfer.term,
+				Task:         n.taskID(l.transfer.transferLdr.task),
+				RespPending:  l.transfer.respCh != nil,
+				NewTermTimer: l.transfer.newTermTimer.active,
+			}
+		}
+		for _, t := range l.waitStable {
+			d.Ldr.WaitStable = append(d.Ldr.WaitStable, n.taskID(t.task))
+		}
+	}
+	if n.snapReq != nil && r.snapTakenCh != nil {
+		rq := *n.snapReq
+		d.SnapPending = &rq
+	}
+	if n.heldSnap != nil {
+		rs := &VSnapRes{Task: n.taskID(n.heldSnap.req.task)}
+		if n.heldSnap.err != nil {
+			rs.Err = verifResult(n.heldSnap.err)
+		} else {
+			rs.Index = n.heldSnap.meta.index
+		}
+		d.SnapResult = rs
+	}
+	if r.isClosed() {
+		switch r.closeReason {
+		case ErrServerClosed:
+			d.Closed = "serverClosed"
+		case ErrNodeRemoved:
+			d.Closed = "nodeRemoved"
+		default:
+			d.Closed = "error"
+		}
+	}
+	d.Replies = n.Replies()
+	d.RpcReply = n.rpcReply
+	return d
+}
